@@ -1253,3 +1253,35 @@ fn test_parse() {
         "192.0.2.0/24->192.0.2.254,198.51.100.0/24->192.0.2.254"
     );
 }
+
+/// Verification hooks (built only with `--cfg erbium_verif`): raw access to the
+/// octet inside the newtype wrappers, which are otherwise opaque outside this
+/// module.
+#[cfg(erbium_verif)]
+pub mod verif {
+    use super::*;
+    pub fn mk_op(v: u8) -> DhcpOp {
+        DhcpOp(v)
+    }
+    pub fn op_raw(o: &DhcpOp) -> u8 {
+        o.0
+    }
+    pub fn mk_htype(v: u8) -> HwType {
+        HwType(v)
+    }
+    pub fn htype_raw(o: &HwType) -> u8 {
+        o.0
+    }
+    pub fn mk_option(v: u8) -> DhcpOption {
+        DhcpOption(v)
+    }
+    pub fn option_raw(o: &DhcpOption) -> u8 {
+        o.0
+    }
+    pub fn mk_msgtype(v: u8) -> MessageType {
+        MessageType(v)
+    }
+    pub fn msgtype_raw(o: &MessageType) -> u8 {
+        o.0
+    }
+}
